@@ -9,7 +9,7 @@
    can still be waiting: request ids in the handler map, in the task channel, and of senders that
    hold a channel slot ([c_reserved]). *)
 From SV Require Import Base.Prelude Base.Bytes Model.ConnFail Proofs.ConnFail_proofs.
-From SV Require Import Model.Retry Proofs.ConnFail_retry Proofs.ConnFail_accept.
+From SV Require Import Model.Retry Proofs.ConnFail_retry Proofs.ConnFail_accept Proofs.ConnFail_phase.
 Open Scope N_scope.
 
 (* For EVERY schedule: once a fault label (end of stream at any byte offset, bad header, frame
@@ -54,6 +54,17 @@ Theorem C10_submit_during_teardown : forall ctl st e r st',
   reachable ctl st -> c_status st = TearingDown e -> step st (Reserve r) = Some st' ->
   c_status st' = TearingDown e /\ In r (pending_rids st').
 Proof. exact submit_during_teardown. Qed.
+
+(* The error a request fails with names the phase it was caught in: in EVERY reachable state a request
+   failed with the router's error e only if e is THE error this connection went into teardown with (one
+   root cause per connection, for handlers and for tasks drained from the channel alike), and a request
+   was refused with ChannelError only after receiver.close().  (The tie compares the recorded error classes
+   of requests the mock never saw against exactly this: the connection's root cause, ChannelError, or the
+   pool's error.) *)
+Theorem C10_root_cause : forall ctl st, reachable ctl st ->
+  (forall r e, In (r, FailBroken e) (c_done st) -> closing e st) /\
+  (forall r, In (r, FailChannel) (c_done st) -> chan_closed st = true).
+Proof. exact root_cause. Qed.
 
 (* Progress: while tearing down / draining, a step of the router ([TdStep]) is enabled, or -- when
    the router waits in recv() for a sender that holds a slot -- the [Push] of that sender is; the
@@ -337,6 +348,20 @@ Example C10_ex_pool_accept :
   pool_accept [EvAdd 1; EvAdd 1] = false /\ pool_accept [EvGet 1] = false /\ pool_accept [] = true.
 Proof. vm_compute. repeat split; reflexivity. Qed.
 
+(* the three ways a request fails around a fault: handler (root cause), drained from the channel (root
+   cause), refused after close (ChannelError); before close a submit is still accepted *)
+Example C10_ex_root_cause :
+  match run (conn_init false) [Reserve 1; Push 1; WriterTake (Some 0); Reserve 2; Push 2; Recv (ex_hdr 7 0);
+                               Reserve 3; TdStep; TdStep; Reserve 4; Push 3; TdStep; TdStep; TdStep] with
+  | Some st => c_status st = Broken (EUnexpectedStream 7) /\
+      outcome_of 1 (c_done st) = Some (FailBroken (EUnexpectedStream 7)) /\
+      outcome_of 2 (c_done st) = Some (FailBroken (EUnexpectedStream 7)) /\
+      outcome_of 3 (c_done st) = Some (FailBroken (EUnexpectedStream 7)) /\
+      outcome_of 4 (c_done st) = Some FailChannel
+  | None => False
+  end.
+Proof. vm_compute. repeat split; reflexivity. Qed.
+
 Example C10_ex_resend_ok :
   resend_ok false 1 = true /\ resend_ok false 2 = false /\ resend_ok true 3 = true /\ resend_ok false 0 = true.
 Proof. repeat split; reflexivity. Qed.
@@ -408,6 +433,7 @@ Proof. vm_compute. repeat split; reflexivity. Qed.
 
 Print Assumptions C10_all_fail.
 Print Assumptions C10_framing.
+Print Assumptions C10_root_cause.
 Print Assumptions C10_accept_sound.
 Print Assumptions C10_sent_table_sound.
 Print Assumptions C10_echo_of_sound.
